@@ -1,4 +1,6 @@
 import TypVerif.Gen.Pool
+import TypVerif.Gen.AtomicValueCalls
+import TypVerif.Gen.PoolCalls
 import TypVerif.Model.Pool
 import TypVerif.Props.C18
 /-
@@ -23,5 +25,21 @@ theorem gen_pool_race_free {hasNew : Bool} {menu : List Op} {n : Nat} {s : State
   have hp : genPinned = false := by
     unfold genPinned; rw [gen_pool_no_plain_stores.1, gen_pool_no_plain_stores.2]; rfl
   rw [hp]; exact pool_race_free h
+
+/-! The call shape of every method of `sync2/atomicvalue.go` and `sync2/pool.go`, regenerated from the source on every run: each
+`AtomicValue` method is ONE call on the wrapped `atomic.Value` (plus `typ.Zero` for the empty register), `Pool.Put` is one `sync.Pool.Put`,
+`Pool.Get` one `sync.Pool.Get` plus `New` — what `Model/AtomicValue.lean` / `Model/Pool.lean` assume when they take `atomic.Value` and
+`sync.Pool` by contract (one atomic action per call).  A fast path that reads the register before writing it, a second access, or a
+side table next to the pool changes these lists and breaks the `rfl`s. -/
+
+theorem gen_atomicvalue_is_one_atomic_call :
+    Gen.AtomicValueCalls.methods =
+      [("AtomicValue.CompareAndSwap", ["v.atom.CompareAndSwap"]),
+       ("AtomicValue.Load", ["v.atom.Load", "typ.Zero[T]"]),
+       ("AtomicValue.Store", ["v.atom.Store"]),
+       ("AtomicValue.Swap", ["v.atom.Swap", "typ.Zero[T]"])] := rfl
+
+theorem gen_pool_is_the_wrapped_pool :
+    Gen.PoolCalls.methods = [("Pool.Get", ["p.pool.Get", "p.New"]), ("Pool.Put", ["p.pool.Put"])] := rfl
 
 end C18
